@@ -173,7 +173,7 @@ int main(int argc, char **argv) {
 				Verdict V = I->interactive ? verify_mitm(*I, B, m) : verify_text(*I, B, apply_text(B.pl, m));
 				note(V);
 				std::string cls = m.role + "/" + m.mut;
-				if (!m.judged) { count("unjudged/" + cls); if (V.accepted) count("unjudged_accepted/" + cls); continue; }
+				if (!m.judged) { count("equiv_executed/" + m.why + "/" + cls); if (V.accepted) count("equiv_accepted/" + m.why + "/" + cls); continue; }
 				judged++; count("judged_line_runs"); count("cov/" + f.name + "/" + cls); count("mut/" + m.mut); count("role/" + m.role);
 				distinct.insert("L" + std::to_string(m.k) + "." + std::to_string(m.field) + "/" + m.mut);
 				if (V.accepted) {
@@ -219,7 +219,7 @@ int main(int argc, char **argv) {
 							mpz_set(P.v, saved);
 							note(V);
 							std::string cls = P.kind + "/" + pm.mut;
-							if (!is_judged) { std::string why = pm.judged ? "not-selected-by-challenge" : "unjudged"; count("pub_" + why + "/" + cls); if (V.accepted) count("pub_" + why + "_accepted/" + cls); continue; }
+							if (!is_judged) { std::string why = pm.judged ? "not-selected-by-challenge" : pm.why; count("equiv_executed/" + why + "/pub." + cls); if (V.accepted) count("equiv_accepted/" + why + "/pub." + cls); continue; }
 							judged++; count("judged_pub_runs"); count("pubcov/" + f.name + "/" + cls); count("pubmut/" + cls);
 							distinct.insert("P" + std::to_string(h) + "/" + pm.mut + "/" + std::to_string(bi));
 							if (V.accepted) {
